@@ -12,9 +12,10 @@
 (*   key    for kvp nodes the canonical text of the key, "" otherwise      *)
 (*   ch     content hash of the subtree as data (mappings and multisets    *)
 (*          as bags, lists positional, scalar type significant)            *)
-(*   lh     loose content hash: as ch, but 1 / 1.0 / true coincide (the    *)
-(*          cross-type twins Python and the code under test treat as equal;*)
-(*          "equal as data" is undecided for them, see DESIGN 6.2)         *)
+(*   lh     loose content hash: as ch, but an absent XML text and a        *)
+(*          whitespace-only one coincide (C12's "modulo surrounding        *)
+(*          whitespace"); numbers and booleans are NOT loosened: 1, 1.0    *)
+(*          and true are three different values (finding F29)              *)
 (*   size   the node's size in the cost model (informational)              *)
 (*                                                                         *)
 (* A script is a sequence of EVENTS against a stack of FRAMES.  A frame is *)
